@@ -238,6 +238,9 @@ def read_cases(outdir):
     return [l for l in open(os.path.join(outdir, "cases.jsonl")).read().split("\n") if l.strip()]
 
 
+OBSERVED = {}
+
+
 def corr_once(sub, seed, n, replay_lines=None, mode=None, keep=None, extra=None):
     """One implrun + coqc round. Returns (stats, case_lines, failing_indices)."""
     d = tempfile.mkdtemp(prefix="verif-%s-" % sub)
@@ -250,6 +253,16 @@ def corr_once(sub, seed, n, replay_lines=None, mode=None, keep=None, extra=None)
         stats = run_impl(sub, d, seed, n, replay=rp, mode=mode, extra=extra)
         failing = eval_cases(d)
         lines = read_cases(d)
+        if failing:
+            # keep what the implementation was seen to do on the failing cases (the Gallina term holds inputs and
+            # observations): a disagreement that does not reproduce can still be diagnosed from the replay record
+            try:
+                gal = open(os.path.join(d, "cases.gal")).read().split("\n\x1e\n")
+                for i in failing:
+                    if i < len(lines) and i < len(gal):
+                        OBSERVED[case_hash(sub + lines[i])] = gal[i][:60000]
+            except Exception:
+                pass
         return stats, lines, failing
     finally:
         if keep:
